@@ -34,10 +34,29 @@ import (
 )
 
 const (
-	verifDir = "/verif"
-	goBin    = "/opt/veriftools/go1.26.8/bin"
-	modRel   = "src/diagonal.works/b6"
+	goBin  = "/opt/veriftools/go1.26.8/bin"
+	modRel = "src/diagonal.works/b6"
 )
+
+// verifDir is the directory holding this framework: VERIF_DIR, else the
+// directory of the running executable (so a snapshot of /verif started with
+// `vp run` builds, caches and writes evidence inside the snapshot).
+var verifDir = func() string {
+	if v := os.Getenv("VERIF_DIR"); v != "" {
+		return v
+	}
+	if exe, err := os.Executable(); err == nil {
+		if d := filepath.Dir(exe); fileExists(filepath.Join(d, "harness")) && fileExists(filepath.Join(d, "simrt")) {
+			return d
+		}
+	}
+	return "/verif"
+}()
+
+func fileExists(p string) bool {
+	_, err := os.Stat(p)
+	return err == nil
+}
 
 func repoDir() string {
 	if v := os.Getenv("VERIF_REPO"); v != "" {
@@ -485,9 +504,9 @@ type tierCfg struct {
 func tierFor(name string) tierCfg {
 	switch name {
 	case "quick":
-		return tierCfg{name: "quick", workers: 16, seconds: envInt("VERIF_QUICK_S", 20), maxRuns: 1 << 40, shrinkS: 40, watchdog: 120}
+		return tierCfg{name: "quick", workers: envInt("VERIF_WORKERS", 16), seconds: envInt("VERIF_QUICK_S", 20), maxRuns: 1 << 40, shrinkS: 40, watchdog: 120}
 	case "thorough":
-		return tierCfg{name: "thorough", workers: 16, seconds: envInt("VERIF_THOROUGH_S", 900), maxRuns: 1 << 40, shrinkS: 300, watchdog: 300}
+		return tierCfg{name: "thorough", workers: envInt("VERIF_WORKERS", 16), seconds: envInt("VERIF_THOROUGH_S", 900), maxRuns: 1 << 40, shrinkS: 300, watchdog: 300}
 	}
 	trouble("unknown tier %q", name)
 	return tierCfg{}
